@@ -37,8 +37,6 @@ func TestSim(t *testing.T) {
 	// one run in four is the corner stratum: replies that need more than 255 fragments
 	hysim.Main(t,
 		&hysim.Harness{Name: "c03srvudp", Gen: func(r *hysim.Rand, tier string) *hysim.Script { return genC03Srv(r, tier, r.Chance(1, 4)) }, Exec: execC03Srv},
-		// the same workload in a race-detector build (part c03srvudprace)
-		&hysim.Harness{Name: "c03srvudprace", Gen: func(r *hysim.Rand, tier string) *hysim.Script { return genC03Srv(r, tier, r.Chance(1, 4)) }, Exec: execC03Srv},
 	)
 }
 
